@@ -8,13 +8,43 @@ C06 — helper lemmas: provenance of entries that are not `loaded`.
 import GoZero.C06.Proofs2
 namespace GoZero.C06
 
-def Pending (s : St) (k : CKey) : Prop := ∃ t ∈ s.tasks, k ∈ t.keys
+/-- a retry of a DEL covering slot `k` (a DEL of its key, on its node) sits in the cleaner's table. -/
+def Pending (s : St) (k : Slot) : Prop := ∃ t ∈ s.tasks, t.node = k.1 ∧ k.2 ∈ t.keys
 
 def Prov (s : St) : Prop :=
-  ∀ k e, s.cache k = some e → e.origin = .stale → Pending s k ∨ 0 < s.gaveUp
+  ∀ (k : Slot) e, s.cache k = some e → e.origin = .stale → Pending s k ∨ 0 < s.gaveUp
 
 def NoBehind (s : St) : Prop :=
-  ∀ k e, s.cache k = some e → e.origin = .loaded ∨ e.origin = .stale
+  ∀ (k : Slot) e, s.cache k = some e → e.origin = .loaded ∨ e.origin = .stale
+
+/-- **dispatch invariant** of the multi-node store: an entry of a key sits on the node the dispatcher assigns
+to the key, never on another node. -/
+def Placed (c : Cfg) (s : St) : Prop :=
+  ∀ (k : Slot) e, s.cache k = some e → k.1 = c.place k.2
+
+/-- every entry of `s'` sits where `s` had an entry, or on its key's node. -/
+def Fresh (c : Cfg) (s s' : St) : Prop :=
+  ∀ (k : Slot) e', s'.cache k = some e' → (∃ e, s.cache k = some e) ∨ k.1 = c.place k.2
+
+theorem Fresh.refl (c : Cfg) (s : St) : Fresh c s s := fun _ e' h => Or.inl ⟨e', h⟩
+
+theorem Fresh.trans {c : Cfg} {a b d : St} (h1 : Fresh c a b) (h2 : Fresh c b d) : Fresh c a d := by
+  intro k e' hk
+  rcases h2 k e' hk with ⟨e, he⟩ | h
+  · exact h1 k e he
+  · exact Or.inr h
+
+theorem placed_of_fresh {c : Cfg} {s s' : St} (hp : Placed c s) (hf : Fresh c s s') : Placed c s' := by
+  intro k e' hk
+  rcases hf k e' hk with ⟨e, he⟩ | h
+  · exact hp k e he
+  · exact h
+
+theorem fresh_of_shrinks {c : Cfg} {s s' : St} (h : Shrinks s s') : Fresh c s s' := by
+  intro k e' hk
+  rcases h k with h | h
+  · exact Or.inl ⟨e', h ▸ hk⟩
+  · rw [h] at hk; cases hk
 
 /-- every entry of `s'` has the origin of the entry of `s` under the same key, or is a fresh `loaded` one. -/
 def OriginsFrom (s s' : St) : Prop :=
@@ -56,11 +86,29 @@ theorem originsFrom_of_shrinks {s s' : St} (h : Shrinks s s') : OriginsFrom s s'
   · exact Or.inl ⟨e', h ▸ hk, rfl⟩
   · rw [h] at hk; cases hk
 
-theorem getCache_originsFrom (s : St) (k : CKey) (m : List Bool) : OriginsFrom s (getCache s k m).1 :=
-  originsFrom_of_shrinks (getCache_shrinks s k m)
+theorem getCache_originsFrom (s : St) (n : Nat) (k : CKey) (m : List Bool) : OriginsFrom s (getCache s n k m).1 :=
+  originsFrom_of_shrinks (getCache_shrinks s n k m)
 
-theorem getCache_sameTasks (s : St) (k : CKey) (m : List Bool) : SameTasks s (getCache s k m).1 :=
-  getCache_tasks s k m
+theorem getCache_sameTasks (s : St) (n : Nat) (k : CKey) (m : List Bool) : SameTasks s (getCache s n k m).1 :=
+  getCache_tasks s n k m
+
+theorem setex_fresh (c : Cfg) (s : St) (k : CKey) (v t o f) : Fresh c s (setex s (c.slot k) v t o f) := by
+  intro k' e' hk
+  rcases setex_fail_or s (c.slot k) v t o f k' with h | ⟨h, _⟩
+  · exact Or.inl ⟨e', h ▸ hk⟩
+  · subst h; exact Or.inr rfl
+
+theorem setnx_fresh (c : Cfg) (s : St) (k : CKey) (t f) : Fresh c s (setnx s (c.slot k) t f) := by
+  unfold setnx
+  split
+  · exact Fresh.refl c s
+  · split
+    · exact Fresh.refl c s
+    · intro k' e' hk
+      simp only [upd] at hk
+      by_cases h : k' = c.slot k
+      · subst h; exact Or.inr rfl
+      · simp [h] at hk; exact Or.inl ⟨e', hk⟩
 
 theorem setex_originsFrom (s : St) (k v t f) : OriginsFrom s (setex s k v t .loaded f) := by
   intro k' e' hk
@@ -89,8 +137,8 @@ theorem setnx_sameTasks (s : St) (k t f) : SameTasks s (setnx s k t f) := by
 
 theorem takeP_origins (c : Cfg) (s : St) (pk j : Nat) (m : List Bool) (dbf : Bool) :
     OriginsFrom s (takeP c s pk j m dbf).1 ∧ SameTasks s (takeP c s pk j m dbf).1 := by
-  have ho := getCache_originsFrom s (.p pk) m
-  have ht := getCache_sameTasks s (.p pk) m
+  have ho := getCache_originsFrom s (c.place (.p pk)) (.p pk) m
+  have ht := getCache_sameTasks s (c.place (.p pk)) (.p pk) m
   unfold takeP
   simp only []
   repeat' split
@@ -101,14 +149,15 @@ theorem takeP_origins (c : Cfg) (s : St) (pk j : Nat) (m : List Bool) (dbf : Boo
 
 theorem qindex_origins (c : Cfg) (s : St) (a j : Nat) (m : List Bool) (dbf : Bool) :
     OriginsFrom s (qindex c s a j m dbf).1 ∧ SameTasks s (qindex c s a j m dbf).1 := by
-  have ho := getCache_originsFrom s (.x a) m
-  have ht := getCache_sameTasks s (.x a) m
+  have ho := getCache_originsFrom s (c.place (.x a)) (.x a) m
+  have ht := getCache_sameTasks s (c.place (.x a)) (.x a) m
   unfold qindex
   simp only []
   split
   · exact ⟨ho, ht⟩
   · exact ⟨ho, ht⟩
-  · have := takeP_origins c (getCache s (.x a) m).1 ‹_› j (m.drop (getCache s (.x a) m).2.2.length) dbf
+  · have := takeP_origins c (getCache s (c.place (.x a)) (.x a) m).1 ‹_› j
+      (m.drop (getCache s (c.place (.x a)) (.x a) m).2.2.length) dbf
     exact ⟨ho.trans this.1, ht.trans this.2⟩
   · exact ⟨ho, ht⟩
   · repeat' split
@@ -118,48 +167,201 @@ theorem qindex_origins (c : Cfg) (s : St) (a j : Nat) (m : List Bool) (dbf : Boo
       | exact ⟨(ho.trans (setex_originsFrom _ _ _ _ _)).trans (setex_originsFrom _ _ _ _ _),
                (ht.trans (setex_sameTasks _ _ _ _ _ _)).trans (setex_sameTasks _ _ _ _ _ _)⟩
 
-theorem getOp_origins (s : St) (k : CKey) (m : List Bool) :
-    OriginsFrom s (getOp s k m).1 ∧ SameTasks s (getOp s k m).1 := by
-  have ho := getCache_originsFrom s k m
-  have ht := getCache_sameTasks s k m
+theorem getOp_origins (c : Cfg) (s : St) (k : CKey) (m : List Bool) :
+    OriginsFrom s (getOp c s k m).1 ∧ SameTasks s (getOp c s k m).1 := by
+  have ho := getCache_originsFrom s (c.place k) k m
+  have ht := getCache_sameTasks s (c.place k) k m
   unfold getOp
   simp only []
   split <;> exact ⟨ho, ht⟩
 
 /-! ### Prov -/
 
-theorem pending_mono {s s' : St} (h : ∀ t ∈ s.tasks, t ∈ s'.tasks) {k : CKey} (hp : Pending s k) : Pending s' k := by
+theorem pending_mono {s s' : St} (h : ∀ t ∈ s.tasks, t ∈ s'.tasks) {k : Slot} (hp : Pending s k) : Pending s' k := by
   obtain ⟨t, ht, hk⟩ := hp
   exact ⟨t, h t ht, hk⟩
 
-theorem delOp_prov {s : St} (hp : Prov s) (ks : List CKey) (m : List Bool) : Prov (delOp s ks m).1 := by
-  unfold delOp
-  split
-  · exact hp
-  · split
-    · intro k e hk hs
-      rcases hp k e hk hs with h | h
-      · exact Or.inl (pending_mono (s' := { s with tasks := s.tasks ++ [⟨ks, 1, 1⟩] })
-          (fun t ht => List.mem_append_left _ ht) h)
-      · exact Or.inr h
-    · intro k e hk hs
-      simp only [delKeys] at hk
-      by_cases h : k ∈ ks
-      · simp [h] at hk
-      · simp [h] at hk
-        exact hp k e hk hs
+theorem pending_of_delStep {s s' : St} (h : DelStep s s') {k : Slot} (hp : Pending s k) : Pending s' k := by
+  obtain ⟨l, hl⟩ := h.tasks
+  exact pending_mono (fun t ht => by rw [hl]; exact List.mem_append_left _ ht) hp
 
-theorem markChanged_spec {s s1 : St} {ks : List CKey} {k : CKey} {e : Entry} (hk : markChanged s s1 ks k = some e) :
+/-- a DelCtx layer keeps `Prov`: it removes entries and appends tasks. -/
+theorem prov_of_delStep {s s' : St} (hp : Prov s) (h : DelStep s s') : Prov s' := by
+  intro k e hk hs
+  rcases h.shr k with hc | hc
+  · rcases hp k e (hc ▸ hk) hs with hpd | hg
+    · exact Or.inl (pending_of_delStep h hpd)
+    · exact Or.inr (by rw [h.gave]; exact hg)
+  · rw [hc] at hk; cases hk
+
+theorem delOp_prov (c : Cfg) {s : St} (hp : Prov s) (ks : List CKey) (m : List (List Bool)) : Prov (delOp c s ks m).1 :=
+  prov_of_delStep hp (delOp_step c s ks m)
+
+/-! #### every named key is covered: deleted, or a retry of its DEL is pending -/
+
+/-- the slot is empty, or a retry of a DEL covering it is pending. -/
+def Covered (s : St) (k : Slot) : Prop := s.cache k = none ∨ Pending s k
+
+theorem covered_of_delStep {s s' : St} (h : DelStep s s') {k : Slot} (hc : Covered s k) : Covered s' k := by
+  rcases hc with hc | hc
+  · rcases h.shr k with h' | h'
+    · exact Or.inl (h'.trans hc)
+    · exact Or.inl h'
+  · exact Or.inr (pending_of_delStep h hc)
+
+theorem delOne_covers (s : St) (n : Nat) (ks : List CKey) (f : Bool) {k : CKey} (hk : k ∈ ks) :
+    Covered (delOne s n ks f) (n, k) := by
+  unfold delOne
+  split
+  · exact Or.inr ⟨⟨n, ks, 1, 1⟩, List.mem_append_right _ (List.mem_singleton.mpr rfl), rfl, hk⟩
+  · left
+    simp only [delKeys]
+    have : (n, k) ∈ ks.map fun k => (n, k) := List.mem_map.mpr ⟨k, hk, rfl⟩
+    simp [this]
+
+/-- the per-key loop covers EVERY key of the list, whatever the outcome of the DELs before it (this is what a
+`break` after the first failure would falsify). -/
+theorem delLoop_covers (n : Nat) (ks : List CKey) {k : CKey} (hk : k ∈ ks) :
+    ∀ (s : St) (m : List Bool), Covered (delLoop s n ks m).1 (n, k) := by
+  induction ks with
+  | nil => cases hk
+  | cons k0 ks ih =>
+    intro s m
+    simp only [delLoop]
+    rcases List.mem_cons.mp hk with h | h
+    · subst h
+      exact covered_of_delStep (delLoop_step n ks _ _) (delOne_covers s n [k] _ (List.mem_singleton.mpr rfl))
+    · exact ih h _ _
+
+theorem nodeDel_covers (cl : Bool) (s : St) (n : Nat) (ks : List CKey) (m : List Bool) {k : CKey} (hk : k ∈ ks) :
+    Covered (nodeDel cl s n ks m).1 (n, k) := by
+  unfold nodeDel
+  split
+  · rename_i h; subst h; cases hk
+  · split
+    · exact delLoop_covers n ks hk s m
+    · exact delOne_covers s n ks _ hk
+
+theorem clusterDel_covers (c : Cfg) (ks : List CKey) (masks : List (List Bool)) {k : CKey} (hk : k ∈ ks)
+    (ns : List Nat) (hn : c.place k ∈ ns) : ∀ s : St, Covered (clusterDel c ks masks ns s).1 (c.slot k) := by
+  induction ns with
+  | nil => cases hn
+  | cons n ns ih =>
+    intro s
+    simp only [clusterDel]
+    by_cases h : c.place k = n
+    · refine covered_of_delStep (clusterDel_step c ks masks ns _) ?_
+      have hk' : k ∈ ks.filter fun k => c.place k = n := by simp [List.mem_filter, hk, h]
+      have := nodeDel_covers c.cluster s n _ (masks.getD n []) hk'
+      simpa [Cfg.slot, h] using this
+    · rcases List.mem_cons.mp hn with h' | h'
+      · exact absurd h' h
+      · exact ih h' _
+
+theorem mem_nodesOf (c : Cfg) {k : CKey} {ks : List CKey} (hk : k ∈ ks) : c.place k ∈ nodesOf c ks := by
+  induction ks with
+  | nil => cases hk
+  | cons k0 ks ih =>
+    simp only [nodesOf]
+    rcases List.mem_cons.mp hk with h | h
+    · subst h
+      split
+      · assumption
+      · exact List.mem_cons_self
+    · split
+      · exact ih h
+      · exact List.mem_cons_of_mem _ (ih h)
+
+/-- **`Cache.DelCtx` covers every key it is given**: after the call the key's slot is empty or a retry of a
+DEL of that key on that node is pending — for every number of nodes, node-type and cluster-type Redis, every
+placement of the keys and every outcome of every DEL. -/
+theorem delOp_covers (c : Cfg) (s : St) (ks : List CKey) (m : List (List Bool)) {k : CKey} (hk : k ∈ ks) :
+    Covered (delOp c s ks m).1 (c.slot k) :=
+  clusterDel_covers c ks m hk _ (mem_nodesOf c hk) s
+
+/-! #### without a failing DEL every named key is gone -/
+
+theorem failAt_head (m : List Bool) : m.headD false = failAt m 0 := by
+  cases m <;> rfl
+
+theorem failAt_tail (m : List Bool) (i : Nat) : failAt m.tail i = failAt m (i + 1) := by
+  cases m <;> simp [failAt]
+
+theorem gone_of_delStep {s s' : St} (h : DelStep s s') {k : Slot} (hc : s.cache k = none) : s'.cache k = none := by
+  rcases h.shr k with h' | h'
+  · exact h'.trans hc
+  · exact h'
+
+theorem delOne_gone (s : St) (n : Nat) (ks : List CKey) {k : CKey} (hk : k ∈ ks) :
+    (delOne s n ks false).cache (n, k) = none := by
+  have : (n, k) ∈ ks.map fun k => (n, k) := List.mem_map.mpr ⟨k, hk, rfl⟩
+  simp [delOne, delKeys, this]
+
+theorem delLoop_gone (n : Nat) (ks : List CKey) {k : CKey} (hk : k ∈ ks) :
+    ∀ (s : St) (m : List Bool), (∀ i, failAt m i = false) → (delLoop s n ks m).1.cache (n, k) = none := by
+  induction ks with
+  | nil => cases hk
+  | cons k0 ks ih =>
+    intro s m hm
+    simp only [delLoop]
+    have h0 : m.headD false = false := by rw [failAt_head]; exact hm 0
+    have ht : ∀ i, failAt m.tail i = false := fun i => by rw [failAt_tail]; exact hm _
+    rcases List.mem_cons.mp hk with h | h
+    · subst h
+      rw [h0]
+      exact gone_of_delStep (delLoop_step n ks _ _) (delOne_gone s n [k] (List.mem_singleton.mpr rfl))
+    · exact ih h _ _ ht
+
+theorem nodeDel_gone (cl : Bool) (s : St) (n : Nat) (ks : List CKey) (m : List Bool) (hm : ∀ i, failAt m i = false)
+    {k : CKey} (hk : k ∈ ks) : (nodeDel cl s n ks m).1.cache (n, k) = none := by
+  unfold nodeDel
+  split
+  · rename_i h; subst h; cases hk
+  · split
+    · exact delLoop_gone n ks hk s m hm
+    · rw [hm 0]; exact delOne_gone s n ks hk
+
+theorem clusterDel_gone (c : Cfg) (ks : List CKey) (masks : List (List Bool))
+    (hm : ∀ n i, failAt (masks.getD n []) i = false) {k : CKey} (hk : k ∈ ks)
+    (ns : List Nat) (hn : c.place k ∈ ns) : ∀ s : St, (clusterDel c ks masks ns s).1.cache (c.slot k) = none := by
+  induction ns with
+  | nil => cases hn
+  | cons n ns ih =>
+    intro s
+    simp only [clusterDel]
+    by_cases h : c.place k = n
+    · refine gone_of_delStep (clusterDel_step c ks masks ns _) ?_
+      have hk' : k ∈ ks.filter fun k => c.place k = n := by simp [List.mem_filter, hk, h]
+      have := nodeDel_gone c.cluster s n _ (masks.getD n []) (hm n) hk'
+      simpa [Cfg.slot, h] using this
+    · rcases List.mem_cons.mp hn with h' | h'
+      · exact absurd h' h
+      · exact ih h' _
+
+theorem delOp_nofault (c : Cfg) (s : St) (ks : List CKey) (m : List (List Bool))
+    (hm : ∀ n i, failAt (m.getD n []) i = false) {k : CKey} (hk : k ∈ ks) :
+    (delOp c s ks m).1.cache (c.slot k) = none :=
+  clusterDel_gone c ks m hm hk _ (mem_nodesOf c hk) s
+
+theorem delLoop_cmds (n : Nat) (ks : List CKey) : ∀ (s : St) (m : List Bool),
+    (delLoop s n ks m).2.map (fun r => (r.cmd, r.node, r.keys)) = ks.map fun k => (Cmd.del, n, [k]) := by
+  induction ks with
+  | nil => intro s m; rfl
+  | cons k ks ih => intro s m; simp only [delLoop, List.map_cons]; rw [ih]
+
+theorem markChanged_spec {c : Cfg} {s s1 : St} {ks : List CKey} {k : Slot} {e : Entry}
+    (hk : markChanged c s s1 ks k = some e) :
     ∃ e0, s.cache k = some e0 ∧
       (e.origin = e0.origin ∨
-       (e0.origin = .loaded ∧ dbView s1 k ≠ dbView s k ∧ e.origin = (if k ∈ ks then .stale else .unkeyed))) := by
+       (e0.origin = .loaded ∧ dbView s1 k.2 ≠ dbView s k.2
+        ∧ e.origin = (if k.2 ∈ ks ∧ c.place k.2 = k.1 then .stale else .unkeyed))) := by
   simp only [markChanged] at hk
   cases he0 : s.cache k with
   | none => simp [he0] at hk
   | some e0 =>
     simp only [he0] at hk
     refine ⟨e0, rfl, ?_⟩
-    by_cases hv : dbView s1 k = dbView s k
+    by_cases hv : dbView s1 k.2 = dbView s k.2
     · simp [hv] at hk; subst hk; exact Or.inl rfl
     · by_cases hl : e0.origin = .loaded
       · simp [hv, hl] at hk; subst hk; exact Or.inr ⟨hl, hv, rfl⟩
@@ -168,97 +370,92 @@ theorem markChanged_spec {s s1 : St} {ks : List CKey} {k : CKey} {e : Entry} (hk
 theorem applyWrite_tasks (s : St) (w : Write) : (applyWrite s w).tasks = s.tasks ∧ (applyWrite s w).gaveUp = s.gaveUp := by
   cases w <;> exact ⟨rfl, rfl⟩
 
-/-- Exec: an entry that becomes `stale` is under a key named by the Exec; if the DEL fails a task holding
-those keys is armed, if it succeeds the entry is gone. -/
-theorem execOp_prov {s : St} (hp : Prov s) (ks : List CKey) (w : Write) (m : List Bool) (dbf : Bool) :
-    Prov (execOp s ks w m dbf).1 := by
+/-- Exec: an entry that becomes `stale` is under a key named by the Exec, on that key's node; the DelCtx that
+follows covers it: the entry is gone or a retry of its DEL is pending. -/
+theorem execOp_prov (c : Cfg) {s : St} (hp : Prov s) (ks : List CKey) (w : Write) (m : List (List Bool)) (dbf : Bool) :
+    Prov (execOp c s ks w m dbf).1 := by
   unfold execOp
   split
   · exact hp
   · have ht := applyWrite_tasks s w
-    unfold delOp
     simp only []
-    split
-    · rename_i hks
-      intro k e hk hs
-      obtain ⟨e0, he0, h | ⟨_, _, h⟩⟩ := markChanged_spec hk
-      · have := hp k e0 he0 (h ▸ hs)
-        unfold Pending at *
-        simpa [ht.1, ht.2] using this
-      · subst hks; rw [hs] at h; simp at h
-    · split
-      · intro k e hk hs
-        obtain ⟨e0, he0, h | ⟨_, _, h⟩⟩ := markChanged_spec hk
-        · rcases hp k e0 he0 (h ▸ hs) with ⟨t, htm, hkt⟩ | hg
-          · exact Or.inl ⟨t, by simp only [ht.1]; exact List.mem_append_left _ htm, hkt⟩
-          · exact Or.inr (by simp only [ht.2]; exact hg)
-        · by_cases hin : k ∈ ks
-          · exact Or.inl ⟨⟨ks, 1, 1⟩, List.mem_append_right _ (List.mem_singleton.mpr rfl), hin⟩
-          · rw [hs] at h; simp [hin] at h
-      · intro k e hk hs
-        simp only [delKeys] at hk
-        by_cases hin : k ∈ ks
-        · simp [hin] at hk
-        · simp only [hin, if_false] at hk
-          obtain ⟨e0, he0, h | ⟨_, _, h⟩⟩ := markChanged_spec hk
-          · have := hp k e0 he0 (h ▸ hs)
-            unfold Pending at *
-            simpa [ht.1, ht.2] using this
-          · rw [hs] at h; simp [hin] at h
+    generalize hs2 : ({ applyWrite s w with cache := markChanged c s (applyWrite s w) ks } : St) = s2
+    have hst := delOp_step c s2 ks m
+    intro k e hk hs
+    rcases hst.shr k with hc | hc
+    · rw [hc] at hk
+      have hk2 : markChanged c s (applyWrite s w) ks k = some e := by rw [← hs2] at hk; exact hk
+      obtain ⟨e0, he0, h | ⟨_, _, h⟩⟩ := markChanged_spec hk2
+      · rcases hp k e0 he0 (h ▸ hs) with hpd | hg
+        · left
+          have : Pending s2 k := by
+            obtain ⟨t, htm, hkt⟩ := hpd
+            exact ⟨t, by rw [← hs2]; simpa [ht.1] using htm, hkt⟩
+          exact pending_of_delStep hst this
+        · right
+          rw [hst.gave, ← hs2]
+          simpa [ht.2] using hg
+      · by_cases hin : k.2 ∈ ks ∧ c.place k.2 = k.1
+        · have hcov := delOp_covers c s2 ks m hin.1
+          have hsl : c.slot k.2 = k := by
+            cases k; simp only [Cfg.slot] at hin ⊢; rw [hin.2]
+          rw [hsl] at hcov
+          rcases hcov with hn | hpd
+          · rw [hc, hk] at hn; cases hn
+          · exact Or.inl hpd
+        · rw [hs] at h; simp [hin] at h
+    · rw [hc] at hk; cases hk
 
-theorem tickTask_keys {cf : Bool} {t t' : Task} (h : tickTask cf t = some t') : t'.keys = t.keys := by
+theorem tickTask_keys {dn : Nat → Bool} {t t' : Task} (h : tickTask dn t = some t') :
+    t'.keys = t.keys ∧ t'.node = t.node := by
   unfold tickTask at h
   repeat' split at h
   all_goals simp at h
-  all_goals (subst h; rfl)
+  all_goals (subst h; exact ⟨rfl, rfl⟩)
 
-theorem tick_prov {s : St} (hp : Prov s) (cf : Bool) : Prov (tick s cf).1 := by
+theorem tick_prov {s : St} (hp : Prov s) (down : List Bool) : Prov (tick s down).1 := by
   unfold tick
   intro k e hk hs
-  simp only [] at hk ⊢
-  cases cf with
-  | true =>
-    simp only [if_true] at hk
-    rcases hp k e hk hs with ⟨t, ht, hkt⟩ | h
-    · -- the task stays (re-armed or not yet due) or is given up
-      cases htt : tickTask true t with
+  simp only [delKeys] at hk ⊢
+  by_cases hin : k ∈ dueSlots (downOf down) s.tasks
+  · simp [hin] at hk
+  · simp only [hin, if_false] at hk
+    rcases hp k e hk hs with ⟨t, ht, htn, hkt⟩ | h
+    · cases htt : tickTask (downOf down) t with
       | some t' =>
         left
-        refine ⟨t', List.mem_filterMap.mpr ⟨t, ht, htt⟩, ?_⟩
-        rw [tickTask_keys htt]; exact hkt
+        refine ⟨t', List.mem_filterMap.mpr ⟨t, ht, htt⟩, ?_, ?_⟩
+        · rw [(tickTask_keys htt).2]; exact htn
+        · rw [(tickTask_keys htt).1]; exact hkt
       | none =>
-        right
-        simp only [if_true]
-        have hdue : t.rem ≤ 1 ∧ (nextDelay t.delay).isNone = true := by
+        -- the task ran for the last time: its node is down and the schedule is exhausted (given up) —
+        -- if the node were up, the slot would have been deleted at this tick
+        have hdue : t.rem ≤ 1 := by
           unfold tickTask at htt
           split at htt
           · cases htt
-          · simp only [if_true] at htt
+          · omega
+        by_cases hd : downOf down t.node = true
+        · right
+          have hn : (nextDelay t.delay).isNone = true := by
+            unfold tickTask at htt
+            simp only [show ¬ t.rem > 1 by omega, hd, if_true, if_false] at htt
             split at htt
             · cases htt
-            · rename_i hn; exact ⟨by omega, by simp [hn]⟩
-        have : t ∈ (s.tasks.filter (·.rem ≤ 1)).filter (fun t => (nextDelay t.delay).isNone) := by
-          simp [List.mem_filter, ht, hdue.1, hdue.2]
-        have := List.length_pos_of_mem this
-        omega
-    · right; simp only [if_true]; omega
-  | false =>
-    simp only [Bool.false_eq_true, if_false, delKeys] at hk
-    by_cases hin : k ∈ dueKeys s.tasks
-    · simp [hin] at hk
-    · simp only [hin, if_false] at hk
-      rcases hp k e hk hs with ⟨t, ht, hkt⟩ | h
-      · left
-        have hnd : ¬ t.rem ≤ 1 := by
-          intro hd
+            · rename_i hn; simp [hn]
+          have : t ∈ (s.tasks.filter (·.rem ≤ 1)).filter
+              (fun t => downOf down t.node && (nextDelay t.delay).isNone) := by
+            simp [List.mem_filter, ht, hdue, hd, hn]
+          have := List.length_pos_of_mem this
+          omega
+        · exfalso
           apply hin
-          unfold dueKeys
+          unfold dueSlots
           simp only [List.mem_flatMap, List.mem_filter, decide_eq_true_eq]
-          exact ⟨t, ⟨ht, hd⟩, hkt⟩
-        have htt : tickTask false t = some { t with rem := t.rem - 1 } := by
-          unfold tickTask; simp [show t.rem > 1 by omega]
-        exact ⟨_, List.mem_filterMap.mpr ⟨t, ht, htt⟩, hkt⟩
-      · right; simpa using h
+          refine ⟨t, ⟨ht, hdue, by simpa using hd⟩, ?_⟩
+          unfold Task.slots
+          exact List.mem_map.mpr ⟨k.2, hkt, by cases k; simp at htn ⊢; exact htn⟩
+    · right; omega
 
 theorem expire_origins (s : St) (ms : Nat) : OriginsFrom s { s with cache := expire s.cache ms } := by
   intro k e' hk
@@ -274,31 +471,31 @@ theorem step_prov (c : Cfg) {s : St} (hp : Prov s) (op : Op) : Prov (step c s op
   cases op with
   | take pk j m dbf => exact prov_of_originsFrom hp (takeP_origins c s pk j m dbf).1 (takeP_origins c s pk j m dbf).2
   | qindex a j m dbf => exact prov_of_originsFrom hp (qindex_origins c s a j m dbf).1 (qindex_origins c s a j m dbf).2
-  | get k m => exact prov_of_originsFrom hp (getOp_origins s k m).1 (getOp_origins s k m).2
-  | exec ks w m dbf => exact execOp_prov hp ks w m dbf
-  | del ks m => exact delOp_prov hp ks m
+  | get k m => exact prov_of_originsFrom hp (getOp_origins c s k m).1 (getOp_origins c s k m).2
+  | exec ks w m dbf => exact execOp_prov c hp ks w m dbf
+  | del ks m => exact delOp_prov c hp ks m
   | set k v e j m =>
     simp only [step, setOp]
     intro k' e' hk hs
-    rcases setex_fail_or s k v _ .explicit (failAt m 0) k' with h | ⟨_, h⟩
+    rcases setex_fail_or s (c.slot k) v _ .explicit (failAt m 0) k' with h | ⟨_, h⟩
     · rw [h] at hk
       have := hp k' e' hk hs
       rcases this with ⟨t, ht, hkt⟩ | h
-      · exact Or.inl ⟨t, by rw [(setex_sameTasks s k v _ .explicit (failAt m 0)).1]; exact ht, hkt⟩
-      · exact Or.inr (by rw [(setex_sameTasks s k v _ .explicit (failAt m 0)).2]; exact h)
+      · exact Or.inl ⟨t, by rw [(setex_sameTasks s (c.slot k) v _ .explicit (failAt m 0)).1]; exact ht, hkt⟩
+      · exact Or.inr (by rw [(setex_sameTasks s (c.slot k) v _ .explicit (failAt m 0)).2]; exact h)
     · rw [h] at hk; cases hk; cases hs
   | raw k v t =>
     simp only [step]
     intro k' e' hk hs
     simp only [upd] at hk
-    by_cases h : k' = k
+    by_cases h : k' = c.slot k
     · simp [h] at hk
       rcases hk with ⟨_, hk⟩
       subst hk; cases hs
     · simp [h] at hk
       exact hp k' e' hk hs
   | ft ms => exact prov_of_originsFrom hp (expire_origins s ms) ⟨rfl, rfl⟩
-  | tick cf => exact tick_prov hp cf
+  | tick down => exact tick_prov hp down
 
 /-! ### NoBehind under the property's proviso -/
 
@@ -344,57 +541,111 @@ def OpOk (s : St) : Op → Prop
   | .raw .. => False
   | _ => True
 
-theorem step_noBehind (c : Cfg) {s : St} (hp : NoBehind s) (op : Op) (hok : OpOk s op) : NoBehind (step c s op).1 := by
+/-! ### the dispatch invariant -/
+
+theorem takeP_fresh (c : Cfg) (s : St) (pk j : Nat) (m : List Bool) (dbf : Bool) : Fresh c s (takeP c s pk j m dbf).1 := by
+  have hg : Fresh c s (getCache s (c.place (.p pk)) (.p pk) m).1 := fresh_of_shrinks (getCache_shrinks s _ _ m)
+  unfold takeP
+  simp only []
+  repeat' split
+  all_goals first
+    | exact hg
+    | exact hg.trans (setnx_fresh c _ _ _ _)
+    | exact hg.trans (setex_fresh c _ _ _ _ _ _)
+
+theorem qindex_fresh (c : Cfg) (s : St) (a j : Nat) (m : List Bool) (dbf : Bool) : Fresh c s (qindex c s a j m dbf).1 := by
+  have hg : Fresh c s (getCache s (c.place (.x a)) (.x a) m).1 := fresh_of_shrinks (getCache_shrinks s _ _ m)
+  unfold qindex
+  simp only []
+  split
+  · exact hg
+  · exact hg
+  · exact hg.trans (takeP_fresh c _ _ _ _ _)
+  · exact hg
+  · repeat' split
+    all_goals first
+      | exact hg
+      | exact hg.trans (setnx_fresh c _ _ _ _)
+      | exact (hg.trans (setex_fresh c _ _ _ _ _ _)).trans (setex_fresh c _ _ _ _ _ _)
+
+theorem step_placed (c : Cfg) {s : St} (hp : Placed c s) (op : Op) : Placed c (step c s op).1 := by
   cases op with
-  | take pk j m dbf => exact noBehind_of_originsFrom hp (takeP_origins c s pk j m dbf).1
-  | qindex a j m dbf => exact noBehind_of_originsFrom hp (qindex_origins c s a j m dbf).1
-  | get k m => exact noBehind_of_originsFrom hp (getOp_origins s k m).1
+  | take pk j m dbf => exact placed_of_fresh hp (takeP_fresh c s pk j m dbf)
+  | qindex a j m dbf => exact placed_of_fresh hp (qindex_fresh c s a j m dbf)
+  | get k m =>
+    have hg : Fresh c s (getCache s (c.place k) k m).1 := fresh_of_shrinks (getCache_shrinks s _ _ m)
+    simp only [step, getOp]
+    split <;> exact placed_of_fresh hp hg
   | exec ks w m dbf =>
     simp only [step, execOp]
     split
     · exact hp
-    · have hm : NoBehind { applyWrite s w with cache := markChanged s (applyWrite s w) ks } := by
+    · refine placed_of_fresh (s := { applyWrite s w with cache := markChanged c s (applyWrite s w) ks }) ?_
+        (fresh_of_shrinks (delOp_step c _ ks m).shr)
+      intro k e hk
+      obtain ⟨e0, he0, _⟩ := markChanged_spec hk
+      exact hp k e0 he0
+  | del ks m => exact placed_of_fresh hp (fresh_of_shrinks (delOp_step c s ks m).shr)
+  | set k v e j m => exact placed_of_fresh hp (setex_fresh c s k v _ _ _)
+  | raw k v t =>
+    simp only [step]
+    intro k' e' hk
+    simp only [upd] at hk
+    by_cases h : k' = c.slot k
+    · subst h; rfl
+    · simp [h] at hk; exact hp k' e' hk
+  | ft ms =>
+    simp only [step]
+    intro k e hk
+    simp only [expire] at hk
+    split at hk
+    · rename_i e0 he0; exact hp k e0 he0
+    · cases hk
+  | tick down =>
+    simp only [step, tick]
+    intro k e hk
+    simp only [delKeys] at hk
+    split at hk
+    · cases hk
+    · exact hp k e hk
+
+theorem init_placed (c : Cfg) : Placed c St.init := fun k e hk => by simp [St.init] at hk
+
+theorem run_placed (c : Cfg) {s : St} (h : Placed c s) (ops : List Op) : Placed c (run c s ops) := by
+  induction ops generalizing s with
+  | nil => exact h
+  | cons op ops ih => exact ih (step_placed c h op)
+
+theorem step_noBehind (c : Cfg) {s : St} (hp : NoBehind s) (hpl : Placed c s) (op : Op) (hok : OpOk s op) :
+    NoBehind (step c s op).1 := by
+  cases op with
+  | take pk j m dbf => exact noBehind_of_originsFrom hp (takeP_origins c s pk j m dbf).1
+  | qindex a j m dbf => exact noBehind_of_originsFrom hp (qindex_origins c s a j m dbf).1
+  | get k m => exact noBehind_of_originsFrom hp (getOp_origins c s k m).1
+  | exec ks w m dbf =>
+    simp only [step, execOp]
+    split
+    · exact hp
+    · have hm : NoBehind { applyWrite s w with cache := markChanged c s (applyWrite s w) ks } := by
         intro k e hk
         obtain ⟨e0, he0, h | ⟨_, hne, h⟩⟩ := markChanged_spec hk
         · rw [h]; exact hp k e0 he0
-        · have := hok k hne
-          simp [this] at h
+        · have h1 := hok k.2 hne
+          have h2 := (hpl k e0 he0).symm
+          simp [h1, h2] at h
           exact Or.inr h
-      unfold delOp
-      simp only []
-      split
-      · exact hm
-      · split
-        · exact hm
-        · intro k e hk
-          simp only [delKeys] at hk
-          by_cases hin : k ∈ ks
-          · simp [hin] at hk
-          · simp only [hin, if_false] at hk; exact hm k e hk
-  | del ks m =>
-    simp only [step, delOp]
-    split
-    · exact hp
-    · split
-      · exact hp
-      · intro k e hk
-        simp only [delKeys] at hk
-        by_cases hin : k ∈ ks
-        · simp [hin] at hk
-        · simp only [hin, if_false] at hk; exact hp k e hk
+      exact noBehind_of_originsFrom hm (originsFrom_of_shrinks (delOp_step c _ ks m).shr)
+  | del ks m => exact noBehind_of_originsFrom hp (originsFrom_of_shrinks (delOp_step c s ks m).shr)
   | set k v e j m => exact absurd hok id
   | raw k v t => exact absurd hok id
   | ft ms => exact noBehind_of_originsFrom hp (expire_origins s ms)
-  | tick cf =>
+  | tick down =>
     simp only [step, tick]
     intro k e hk
-    simp only [] at hk
+    simp only [delKeys] at hk
     split at hk
+    · cases hk
     · exact hp k e hk
-    · simp only [delKeys] at hk
-      by_cases hin : k ∈ dueKeys s.tasks
-      · simp [hin] at hk
-      · simp only [hin, if_false] at hk; exact hp k e hk
 
 /-- the proviso along a whole history. -/
 def Proviso (c : Cfg) : St → List Op → Prop
@@ -410,11 +661,11 @@ theorem run_inv (c : Cfg) {s : St} (h : Inv s) (ops : List Op) : Inv (run c s op
   | nil => exact h
   | cons op ops ih => exact ih ⟨step_coh c h.coh op, step_prov c h.prov op⟩
 
-theorem run_noBehind (c : Cfg) {s : St} (h : NoBehind s) (ops : List Op) (hp : Proviso c s ops) :
+theorem run_noBehind (c : Cfg) {s : St} (h : NoBehind s) (hpl : Placed c s) (ops : List Op) (hp : Proviso c s ops) :
     NoBehind (run c s ops) := by
   induction ops generalizing s with
   | nil => exact h
-  | cons op ops ih => exact ih (step_noBehind c h op hp.1) hp.2
+  | cons op ops ih => exact ih (step_noBehind c h hpl op hp.1) (step_placed c hpl op) hp.2
 
 theorem init_inv : Inv St.init :=
   ⟨init_coh, fun k e hk => by simp [St.init] at hk⟩
